@@ -10,6 +10,11 @@ Oracle: `Ref` below, a reference map written from the property text (independent
 it decides itself whether a registration has to be accepted, judges every response and, after every step, the
 database content and both registries (frame).  Objects are generated inside, on the border of and outside the LDM's
 own area of maintenance.
+Round 5: the provider of a history may RE-USE Python objects (`AliasLdm`): the same AddDataProviderReq instance sent
+again, the same data-object dict (or the same nested sub-dicts) inside distinct requests, an update carrying the dict
+another identifier was added with.  For the value-semantic Lean model and for the reference map (which keeps
+immutable serialised snapshots taken at the time of each operation) such a step is just an add / update with equal
+content; on the real facility it decides whether two identifiers can come to share one mutable container.
 """
 from __future__ import annotations
 
@@ -37,6 +42,10 @@ ASSUMPTIONS = [
     "the LDM's own location / area of maintenance is fixed for a history: the property's histories contain no "
     "operation that moves it (LDMMaintenance.update_area_of_maintenance and Location.location_service_callback are "
     "neither modelled nor exercised)",
+    "identity of Python objects: providers may re-use request objects / data-object dicts / nested sub-dicts across "
+    "operations (exercised, judged); a caller MUTATING its own dict after an add, or a consumer mutating the dicts a "
+    "request returned, is none of the property's operations and is neither exercised nor judged (the repository "
+    "stores and returns data objects by reference)",
     "area of maintenance: the property text has no area exception, so for the code as it is every object 'must be "
     "kept' wherever it is located and what the area collection deletes today is reported under known finding C12-KF1 "
     "(only when the loss happens AT a maintenance pass and the object lies in the KF1 region); for a tree with the "
@@ -180,7 +189,7 @@ class Ref:
             if head != ["c", want]:
                 bad.append((f"{n} {op[1]}: ack {head} expected {want}", None))
         elif n == "add":
-            _, app, ts, loc, validity, objser = op
+            _, app, ts, loc, validity, objser = op[:6]
             if app not in self.providers:
                 if head != ["c", "-1"]:
                     bad.append((f"add by unregistered provider {app} answered {head}", None))
@@ -198,7 +207,7 @@ class Ref:
                         self._maintain()
                         self.last_gc_mono = self.mono
         elif n == "upd":
-            _, app, i, objser = op
+            _, app, i, objser = op[:4]
             ok = head == ["c", "0"]
             o = self.objs.get(i)
             should = app in self.providers and o is not None and obj_type(objser) == o["type"]
@@ -274,7 +283,13 @@ class Ref:
             if (ids and self.at_maintenance and not self.area_fixed
                     and all(area_deletes_as_is(self.cfg, self.objs[i]["loc"]) for i in ids)):
                 fid = "C12-KF1"
-            bad.append((f"{where}: object {ids} not returned although added, not deleted and not expired", fid))
+            head = tok.rsplit(" ", 1)[0]
+            if fid is None and any(x.rsplit(" ", 1)[0] == head for x in extra):
+                # same application id / timestamp / location / validity, but a content this identifier never got
+                bad.append((f"{where}: object {ids} is stored with a content it was never given (no add / successful "
+                            f"update of it carried that content: an operation on another object changed it)", fid))
+            else:
+                bad.append((f"{where}: object {ids} not returned although added, not deleted and not expired", fid))
             if fid:                                 # follow the code so that one loss is reported once
                 for i in ids:
                     self.gone[i] = "area-collected"
@@ -305,6 +320,104 @@ class Ref:
         return bad
 
 
+# ------------------------------------------------------------------------------------ providers that re-use objects
+
+ALIAS_KINDS = ("same", "obj", "sub")
+ALIAS_STATS = collections.Counter()      # how often the real driver really handed a re-used object to the facility
+
+
+def plain(op):
+    """an operation without its aliasing annotation: what the Lean model and the reference map see.
+    `["add", app, ts, loc, validity, objser, [kind, k]]`, `["upd", app, id, objser, [kind, k]]`: the provider builds
+    this request out of Python objects it already used for operation number k of the same history -
+      same  the very same AddDataProviderReq instance is sent again (a re-sent message; add only),
+      obj   a new request object carrying the very same data-object dict,
+      sub   a new request object, new top-level dict, but the same nested sub-dicts.
+    In all three cases the CONTENT is that of a plain add / update with equal fields."""
+    if op[0] == "add":
+        return op[:6]
+    if op[0] == "upd":
+        return op[:4]
+    return op
+
+
+class AliasLdm(L.RealLdm):
+    """RealLdm whose provider re-uses request objects / data-object dicts as the annotations say.  An annotation is
+    honoured only if the re-used object still has the content the operation states (otherwise a fresh object with
+    the stated content is built), so the content handed to the facility is always exactly `plain(op)`."""
+
+    def __enter__(self):
+        super().__enter__()
+        self.made = {}                   # op index -> {"req", "obj", "objser", "fields"}
+        self.k = 0
+        self.alias_used = collections.Counter()
+        return self
+
+    def apply(self, op):
+        try:
+            return super().apply(op)
+        finally:
+            self.k += 1
+
+    def _reused(self, op, objser):
+        """(kind, source entry) when the annotation of `op` can be honoured"""
+        al = op[6] if op[0] == "add" and len(op) > 6 else op[4] if op[0] == "upd" and len(op) > 4 else None
+        if not (isinstance(al, (list, tuple)) and len(al) == 2 and al[0] in ALIAS_KINDS):
+            return None, None
+        src = self.made.get(al[1])
+        if src is None or src["objser"] != objser:
+            return None, None
+        try:
+            unchanged = L.ser(src["obj"]) == objser
+        except Exception:
+            unchanged = False
+        if not unchanged:                # the facility wrote into the provider's own dict: do not build on it
+            self.alias_used["provider_dict_changed_by_facility"] += 1
+            return None, None
+        return al[0], src
+
+    def _apply(self, op):
+        n = op[0]
+        K = L.K
+        if n == "add":
+            app, ts, loc, validity, objser = op[1:6]
+            kind, src = self._reused(op, objser)
+            req = obj = None
+            if kind == "same" and src["req"] is not None and src["fields"] == list(op[1:6]):
+                req, obj = src["req"], src["obj"]
+            elif kind == "obj":
+                obj = src["obj"]
+            elif kind == "sub" and isinstance(src["obj"], dict):
+                obj = dict(src["obj"])
+            else:
+                kind = None
+            if obj is None:
+                obj = L.deser(objser)
+            if req is None:
+                req = K.AddDataProviderReq(app, K.TimestampIts(ts), L.real_location(loc), obj, K.TimeValidity(validity))
+            self.made[self.k] = {"req": req, "obj": obj, "objser": objser, "fields": list(op[1:6])}
+            if kind:
+                self.alias_used["add_" + kind] += 1
+            r = self.i3.add_provider_data(req)
+            return f"c {int(r.data_object_id)}"
+        if n == "upd":
+            objser = op[3]
+            kind, src = self._reused(op, objser)
+            if kind in ("same", "obj"):
+                obj = src["obj"]
+            elif kind == "sub" and isinstance(src["obj"], dict):
+                obj = dict(src["obj"])
+            else:
+                kind, obj = None, L.deser(objser)
+            self.made[self.k] = {"req": None, "obj": obj, "objser": objser, "fields": None}
+            if kind:
+                self.alias_used["upd_" + kind] += 1
+            r = self.i3.update_provider_data(K.UpdateDataProviderReq(
+                op[1], op[2], K.TimestampIts(self.now_its()), K.Location.initializer(), obj, K.TimeValidity(1)))
+            return f"c {int(r.result)}"
+        return super()._apply(op)
+
+
 # ------------------------------------------------------------------------------------ running histories
 
 def wants_dump(hist, k):
@@ -316,7 +429,7 @@ def run_real(hist, with_state=True):
     """real facility on a history; returns (lines, states) with states[i] = (stored tokens, providers, consumers,
     state line)"""
     lines, states = [], []
-    with L.RealLdm(hist["cfg"]) as r:
+    with AliasLdm(hist["cfg"]) as r:
         for k, op in enumerate(hist["ops"]):
             lines.append(r.apply(op))
             if with_state:
@@ -324,6 +437,7 @@ def run_real(hist, with_state=True):
                                sorted(r.ldm.ldm_service.data_provider_its_aid),
                                sorted(r.ldm.ldm_service.data_consumer_its_aid),
                                r.state_line(full=wants_dump(hist, k))))
+        ALIAS_STATS.update(r.alias_used)
     return lines, states
 
 
@@ -401,7 +515,7 @@ def model_outputs(ctx, hists, variants):
         lines.append(L.init_line(h["cfg"], variants))
         spans.append((len(lines), 2 * len(h["ops"])))
         for k, op in enumerate(h["ops"]):
-            lines.append(L.op_line(op))
+            lines.append(L.op_line(plain(op)))
             lines.append("dump" if wants_dump(h, k) else "state")
     out = ctx.model("Ldm", lines)
     if any(o == "bad-op" for o in out):
@@ -452,8 +566,10 @@ def gen_loc(rng, cfg, region=None):
 def gen_history(rng, n_ops, variants, pool, mode=None):
     """mode "mixed": everything; "collide": several providers with small ITS-AIDs, many objects, updates / deletes
     aimed at identifiers that equal registered ITS-AIDs; "expire": short validities, long clock advances so that
-    maintenance passes empty the store, then adds and operations on stale identifiers"""
-    mode = mode or rng.choice(["mixed", "mixed", "mixed", "collide", "expire"])
+    maintenance passes empty the store, then adds and operations on stale identifiers; "alias": the provider re-uses
+    request objects / data-object dicts / nested sub-dicts of earlier operations (see `plain`) for many of its adds and
+    some of its updates, and aims updates / deletes at the identifiers involved.  Every mode contains a few such steps."""
+    mode = mode or rng.choice(["mixed", "mixed", "mixed", "collide", "expire", "alias", "alias"])
     cfg = {"lat": rng.choice([415000000, -338000000, 0]), "lon": rng.choice([21000000, -1234567, 0]),
            "alt": rng.choice([0, 120, -50]), "relDist": rng.choice([0, 1, 2, 3, 4, 4, 5, 6, 7])}
     ops = []
@@ -466,13 +582,17 @@ def gen_history(rng, n_ops, variants, pool, mode=None):
         apps = [rng.choice([1, 2, 16, 5, 14])] + rng.sample(APPS, 3) + [2]
         n_reg = 2
     prov, live, types_of, stale = set(), [], {}, []        # rough bookkeeping, only to bias the choices below
+    add_idx, shared_ids, id_of_op = [], [], {}             # indices of add ops; identifiers believed to share objects
+    p_alias = 0.5 if mode == "alias" else 0.06
     for a in apps[:n_reg]:
         ops.append(["regp", a, [a]])
         ops.append(["regc", a, [a, 1]])
         if registration_valid(a, [a], False):
             prov.add(a)
-    p_add = {"mixed": 0.32, "collide": 0.42, "expire": 0.30}[mode]
+    p_add = {"mixed": 0.32, "collide": 0.42, "expire": 0.30, "alias": 0.36}[mode]
     region_bias = rng.choice([None, None, "in", "out"])      # some histories keep most objects on one side
+    if mode == "alias":
+        region_bias = rng.choice(["out", "out", None])
     while len(ops) < n_ops:
         x = rng.random()
         app = rng.choice(apps[:n_reg]) if rng.random() < 0.7 else rng.choice(apps)
@@ -496,18 +616,33 @@ def gen_history(rng, n_ops, variants, pool, mode=None):
                 validity = rng.choice([0, 0, 1, 1, 2, 3, 5, 60, 1000, 100000])
             loc = gen_loc(rng, cfg, region_bias if rng.random() < 0.7 else None)
             obj = rng.choice(pool) if rng.random() < 0.15 else small_message(rng)
-            if ops and ops[-1][0] == "add" and rng.random() < 0.08:     # exact duplicate of the previous object
-                ops.append(list(ops[-1]))
+            src_k = None
+            if add_idx and rng.random() < p_alias:                      # built from objects of an earlier add
+                src_k = rng.choice(add_idx[-6:])
+                kind = rng.choice(["same", "same", "obj", "sub"])
+                if kind == "same":                                      # the same request instance, sent again
+                    ops.append(list(ops[src_k][:6]) + [["same", src_k]])
+                else:                                                   # another request around the same dict(s)
+                    ops.append(["add", app, rng.choice([ts, ops[src_k][2]]), rng.choice([loc, ops[src_k][3]]),
+                                rng.choice([validity, ops[src_k][4]]), ops[src_k][5], [kind, src_k]])
+            elif ops and ops[-1][0] == "add" and rng.random() < 0.08:   # exact duplicate of the previous object
+                ops.append(list(ops[-1][:6]))
             else:
                 ops.append(["add", app, ts, loc, validity, obj])
+            add_idx.append(len(ops) - 1)
             if ops[-1][1] in prov:
                 types_of[next_id] = obj_type(ops[-1][5])
                 live.append(next_id)
+                id_of_op[len(ops) - 1] = next_id
+                if src_k is not None:
+                    shared_ids += [next_id] + ([id_of_op[src_k]] if src_k in id_of_op else [])
                 next_id += 1
         elif x < 0.28 + p_add:
             r = rng.random()
             if mode == "collide" and r < 0.5 and next_id:
                 i = rng.choice([a for a in apps[:n_reg]] + [next_id - 1])      # an identifier equal to an ITS-AID
+            elif shared_ids and r < (0.6 if mode == "alias" else 0.2):
+                i = rng.choice(shared_ids[-8:])                                # an identifier sharing Python objects
             elif stale and r < 0.35:
                 i = rng.choice(stale)                                          # an identifier of a vanished object
             elif live and r < 0.8:
@@ -516,8 +651,14 @@ def gen_history(rng, n_ops, variants, pool, mode=None):
                 i = rng.choice([rng.randrange(0, next_id + 1), next_id + 3])
             if rng.random() < 0.5:
                 t = types_of.get(i)
-                ops.append(["upd", app, i, small_message(rng, t) if (t is not None and rng.random() < 0.75)
-                            else small_message(rng)])
+                same_type = [k for k in add_idx[-10:] if obj_type(ops[k][5]) == t]
+                if same_type and rng.random() < (0.3 if mode == "alias" else 0.04):
+                    k = rng.choice(same_type)                  # the update carries the dict(s) of an earlier add
+                    ops.append(["upd", app, i, ops[k][5], [rng.choice(["obj", "obj", "sub"]), k]])
+                    shared_ids += [i] + ([id_of_op[k]] if k in id_of_op else [])
+                else:
+                    ops.append(["upd", app, i, small_message(rng, t) if (t is not None and rng.random() < 0.75)
+                                else small_message(rng)])
             else:
                 ops.append(["del", app, i])
                 if i in live and rng.random() < 0.9:
@@ -626,6 +767,34 @@ def boundary_histories(variants):
                     ["req", 2, [2, 16], None, None, None], ["adv", 2000], ["gc"], ["add", 2, now0 + 7000, loc(), 0, obj],
                     ["req", 2, [2, 16], None, None, None]]
             out.append({"cfg": base, "ops": ops})
+    # providers that re-use Python objects (see `plain`): three identifiers built from ONE request instance / ONE
+    # data-object dict / the same nested sub-dicts (the third from the second: chains), then an update and a delete
+    # aimed at each of them in turn, an update of another one, a maintenance pass: every identifier keeps what ITS
+    # history says
+    obj3 = L.ser({"cam": {"generationDeltaTime": 3, "camParameters": {"speedValue": 99}}})
+    nested = L.ser({"header": {"protocolVersion": 2, "stationId": 7},
+                    "cam": {"generationDeltaTime": 1, "camParameters": {"speedValue": 10}}})
+    for kind in ALIAS_KINDS:
+        for target in (0, 1, 2):
+            others = [i for i in (0, 1, 2) if i != target]
+            a0 = ["add", 2, now0, loc(), 1000, nested]
+            ops = pre + [a0, a0 + [[kind, 2]], a0 + [[kind, 3]], q,
+                         ["upd", 2, target, obj3], q, ["upd", 2, others[0], obj2], q, ["del", 2, target], q,
+                         ["upd", 2, others[1], obj3, ["obj", 6]], q, ["gc"], q, ["del", 2, others[0]], q]
+            out.append({"cfg": base, "ops": ops})
+    # distinct requests (timestamps / validities / locations differ) around one dict: the expiry of one of them, an
+    # update or a delete of one of them leaves the others; an update that carries the dict another identifier was
+    # added with, followed by updates / deletes of either
+    for kind in ("obj", "sub"):
+        ops = pre + [["add", 2, now0, loc(), 1, nested], ["add", 2, now0 - 1000, loc(300, 0, 13), 100, nested, [kind, 2]],
+                     ["add", 16, now0, loc(), 100, nested, [kind, 3]], ["regp", 16, [16]],
+                     ["add", 16, now0, loc(), 100, nested, [kind, 2]], q, ["adv", 3000], ["gc"], q,
+                     ["upd", 2, 2, obj3], q, ["del", 2, 1], q, ["upd", 2, 2, nested, [kind, 2]], q]
+        out.append({"cfg": base, "ops": ops})
+        ops = pre + [["add", 2, now0, loc(), 1000, obj], ["add", 2, now0, loc(), 1000, nested],
+                     ["upd", 2, 0, nested, [kind, 3]], q, ["upd", 2, 1, obj3], q, ["upd", 2, 0, obj2], q,
+                     ["upd", 2, 1, nested, [kind, 3]], ["del", 2, 0], q, ["upd", 2, 1, obj3, [kind, 6]], q]
+        out.append({"cfg": base, "ops": ops})
     return out
 
 
@@ -667,9 +836,14 @@ def run(ctx):
                               + ("/in_area" if in_area(h["cfg"], op[3]) else "/outside_altitude_band")
                               + ("/kf1_region" if area_deletes_as_is(h["cfg"], op[3]) else "/kept_as_is"))
                     ctx.cover("add_validity:" + (str(op[4]) if op[4] <= 2 else ">2"))
+                if plain(op) != op:
+                    ctx.cover(f"alias_{op[0]}:{op[-1][0]}:{outcome}")
                 ctx.cover(f"op_{op[0]}:{outcome}")
                 ctx.nontrivial((op[0], outcome, min(size, 40) // 4))
             ctx.cover("history_len_" + ("<=30" if len(h["ops"]) <= 30 else "<=120" if len(h["ops"]) <= 120 else ">120"))
+    for key, n in sorted(ALIAS_STATS.items()):
+        ctx.cover("real_driver_reused:" + key, n)
+    ALIAS_STATS.clear()
     if hists:
         tag, h = hists[-1]
         ctx.sample("history", {"cfg": h["cfg"], "ops": [op if op[0] != "add" else op[:5] + ["<obj>"] for op in h["ops"][:12]]})
